@@ -245,7 +245,7 @@ func (rd *round) controller(done <-chan struct{}, lateProb int, delays []int) {
 }
 
 func Run(c *vh.Ctx) {
-	n := c.N(700, 100000)
+	n := c.N(700, 40000)
 	hang := false
 	for i := 0; i < n && !hang; i++ {
 		if c.Skip("c20", i) {
